@@ -109,3 +109,66 @@ Proof.
     + eapply (sp_done _ 0%nat). reflexivity. reflexivity.
   - split; reflexivity.
 Qed.
+
+(* ---- DoTimes / StartGroup account for exactly the goroutines they start *)
+
+Lemma launch_times_spec k : forall s s',
+  spawn_reach s -> launch_times k s s' ->
+  spawn_reach s' /\ sp_counter s' = sp_counter s + Z.of_nat k /\ sp_ext s' = sp_ext s /\
+  sp_jobs s' = sp_jobs s ++ repeat JCounted k.
+Proof.
+  induction k as [|k IH]; intros s s' R H; inversion H; subst.
+  - simpl. rewrite app_nil_r. repeat split; auto; lia.
+  - assert (R1 : spawn_reach (mkSpawn c' (sp_ext s) (sp_jobs s ++ [JCounted]))).
+    { eapply spr_step; [exact R|]. eapply sp_launch. eassumption. }
+    destruct (IH _ _ R1 H2) as (R' & Hc & He & Hj). simpl in *.
+    destruct (spawn_invariant s R) as (Ic & Ie & _). pose proof (n_live_nonneg (sp_jobs s)).
+    rewrite wg_add_ok in H1 by lia. inversion H1; subst.
+    repeat split; auto; [lia|]. rewrite Hj, <- app_assoc. reflexivity.
+Qed.
+
+(* the loop can always run: Inc never panics on a reachable group *)
+Lemma launch_times_total k : forall s, spawn_reach s -> exists s', launch_times k s s'.
+Proof.
+  induction k as [|k IH]; intros s R; [exists s; constructor|].
+  destruct (spawn_invariant s R) as (Ic & Ie & _). pose proof (n_live_nonneg (sp_jobs s)).
+  assert (A : wg_add (sp_counter s) 1 = (sp_counter s + 1, RUnit, (sp_counter s + 1 =? 0))) by (apply wg_add_ok; lia).
+  assert (R1 : spawn_reach (mkSpawn (sp_counter s + 1) (sp_ext s) (sp_jobs s ++ [JCounted]))).
+  { eapply spr_step; [exact R|]. eapply sp_launch. exact A. }
+  destruct (IH _ R1) as (s' & H'). exists s'. econstructor; eauto.
+Qed.
+
+Lemma dotimes_accounts_exactly_lemma n s s' :
+  spawn_reach s -> spawn_dotimes n s s' ->
+  spawn_reach s' /\
+  sp_counter s' = sp_counter s + Z.max 0 n /\
+  sp_ext s' = sp_ext s /\
+  sp_jobs s' = sp_jobs s ++ repeat JCounted (Z.to_nat n) /\
+  (forall i j, nth_error (sp_jobs s') i = Some j -> j_live j = true -> 0 < sp_counter s').
+Proof.
+  intros R H. unfold spawn_dotimes, dotimes_iters in H.
+  destruct (launch_times_spec _ _ _ R H) as (R' & Hc & He & Hj).
+  repeat split; auto; [lia|].
+  intros i j Hn Hl. apply (launch_covered_lemma s' i j R' Hn Hl).
+Qed.
+
+(* a non-positive count starts nothing and changes nothing *)
+Lemma dotimes_nonpositive_noop n s s' : n <= 0 -> spawn_dotimes n s s' -> s' = s.
+Proof.
+  intros Hn H. unfold spawn_dotimes, dotimes_iters in H.
+  replace (Z.to_nat n) with O in H by lia. inversion H. reflexivity.
+Qed.
+
+(* the executable counter function used by the correspondence agrees *)
+Lemma launch_counter_spec k : forall c, 0 <= c -> launch_counter k c = c + Z.of_nat k.
+Proof.
+  induction k as [|k IH]; intros c H; simpl launch_counter; [lia|].
+  rewrite wg_add_ok by lia. simpl fst. rewrite IH by lia. lia.
+Qed.
+
+Lemma dotimes_counter_spec n c : 0 <= c -> dotimes_counter n c = c + Z.max 0 n.
+Proof. intros H. unfold dotimes_counter, dotimes_iters. rewrite launch_counter_spec by lia. lia. Qed.
+
+Example dotimes_negative_example :
+  dotimes_counter (-2) 3 = 3 /\ dotimes_counter 0 3 = 3 /\ dotimes_counter 2 3 = 5.
+Proof. repeat split; reflexivity. Qed.
